@@ -14,46 +14,16 @@ use crate::model::{Config, Step, gen_config, gen_step};
 
 pub const PROPERTY: &str = "C12";
 
-/// Known-finding triggers that can be neutralised in the harness: (finding id, trace filter).
-/// A violation is attributed to a finding only if the same trace without the trigger no longer
-/// violates the same clause.
-fn neutralisers() -> Vec<(&'static str, fn(&Step) -> bool)> {
-    fn nested_immutable(s: &Step) -> bool {
-        // an extra directory *named* `immutable` somewhere below the db dir other than the
-        // top-level one
-        match s {
-            Step::Extra { path, .. } => {
-                let comps: Vec<&str> = path.split('/').collect();
-                comps.iter().enumerate().any(|(i, c)| *c == "immutable" && i > 0 && comps[0] != "immutable")
-            }
-            _ => false,
-        }
-    }
-    vec![("C12-nested-immutable-dir", nested_immutable)]
-}
-
-fn attribute(cfg: &Config, trace: &[Step], clause: &str) -> Option<String> {
-    for (id, is_trigger) in neutralisers() {
-        if !trace.iter().any(is_trigger) {
-            continue;
-        }
-        let without: Vec<Step> = trace.iter().filter(|s| !is_trigger(s)).cloned().collect();
-        let out = execute(cfg, &without);
-        if !out.violations.iter().any(|(c, _)| c == clause) {
-            return Some(id.to_string());
-        }
-    }
-    None
-}
-
-fn to_violations(cfg: &Config, trace: &[Step], out: &Outcome) -> Vec<Violation> {
+/// No known finding of C12 is open (the listing-order dependence of the immutable directory
+/// lookup is repaired in /repo), so nothing is attributed: every violation is reported as new.
+fn to_violations(out: &Outcome) -> Vec<Violation> {
     out.violations
         .iter()
         .map(|(clause, detail)| Violation {
             property: PROPERTY.into(),
             clause: clause.clone(),
             detail: detail.clone(),
-            finding: attribute(cfg, trace, clause),
+            finding: None,
         })
         .collect()
 }
@@ -93,11 +63,11 @@ impl Engine for DigestEngine {
                 Tier::Thorough => 60_000,
             },
             level: "exploration",
-            rule: "one run = 16 (quick) / 64 (thorough) independent histories, each with its own swarm configuration (counter sim_histories; a history costs ~1 ms); one history = 5-25 concrete steps on one node's real scratch directory (append trio / grow the in-progress trio / extra files and directories of 7 kinds / remove extra / compute at a beacon through compute_merkle_tree, CardanoDatabaseSignableBuilder or compute_digests_for_range with no cache, the memory cache or the JSON cache file / restart / cache reset / 7 kinds of damage to the JSON cache file / sensitivity probe = cache-less root before and after a flip, delete, swap, append or drop-last on a covered, beyond-beacon or unrelated file / second node = same files created in shuffled or reverse order). Step mix, sizes, numbering (incl. 99999->100000), enabled extra and damage kinds are swarm-drawn per run; ~20 % of runs have no cache damage. Every computation is compared with an independent reference (own SHA-256 per file, (number, name) order, repo MKTree) and with the real digester on a canonical copy. A history is non-trivial iff at least one returned root was compared with the reference AND, when cache damage is enabled for the run, at least one damage actually changed the cache file and a JSON-cached computation ran on it afterwards; a run is non-trivial iff one of its histories is (counter sim_histories_nontrivial). distinct = distinct hash of the normalised step sequences of the run's non-trivial histories (step kind, cache kind, observed cache class cold/partial/warm/warm-longer/stale/poisoned/unreadable/absent, API, beacon relation, ok/err, which damage kinds fired). states = distinct (step kind, cache kind, cache class, beacon relation, API, layout flags extras-in-immutable/beyond-beacon/elsewhere/odd-names, ok/err)."
+            rule: "one run = 16 (quick) / 64 (thorough) independent histories, each with its own swarm configuration (counter sim_histories; a history costs ~1 ms); one history = 5-25 concrete steps on one node's real scratch directory (append trio / grow the in-progress trio / extra files and directories of 7 kinds incl. further directories named `immutable` deeper than, as deep as or shallower than the node's own one (8 % of histories; in half of those the trios live in db/immutable, node/db/immutable or m/immutable) / remove extra / compute at a beacon through compute_merkle_tree, CardanoDatabaseSignableBuilder or compute_digests_for_range with no cache, the memory cache or the JSON cache file / restart / cache reset / 7 kinds of damage to the JSON cache file / sensitivity probe = cache-less root before and after a flip, delete, swap, append or drop-last on a covered, beyond-beacon or unrelated file / second node = same files created in shuffled or reverse order). Step mix, sizes, numbering (incl. 99999->100000), enabled extra and damage kinds are swarm-drawn per run; ~20 % of runs have no cache damage. Every computation is compared with an independent reference (own SHA-256 per file, (number, name) order, repo MKTree) and with the real digester on a canonical copy. A history is non-trivial iff at least one returned root was compared with the reference AND, when cache damage is enabled for the run, at least one damage actually changed the cache file and a JSON-cached computation ran on it afterwards; a run is non-trivial iff one of its histories is (counter sim_histories_nontrivial). distinct = distinct hash of the normalised step sequences of the run's non-trivial histories (step kind, cache kind, observed cache class cold/partial/warm/warm-longer/stale/poisoned/unreadable/absent, API, beacon relation, ok/err, which damage kinds fired). states = distinct (step kind, cache kind, cache class, beacon relation, API, layout flags several-immutable-dirs(tie)/extras-in-immutable/beyond-beacon/elsewhere/odd-names, ok/err)."
                 .into(),
             assumptions: vec![
                 "digest computations are issued one at a time (no two computations overlap on one JSON cache file); DESIGN.md section 9".into(),
-                "an immutable file is a regular file directly in <db>/immutable whose extension is chunk|primary|secondary and whose stem parses as a decimal u64 (so 2.chunk and +2.chunk count as immutable file 2, following the implementation); symlinks and non-UTF-8 names are not generated".into(),
+                "the immutable directory of a node is the shallowest directory named `immutable` below the directory handed to the digester, ties broken by component-wise path order (the repo's documented any-depth lookup); an immutable file is a regular file directly in it whose extension is chunk|primary|secondary and whose stem parses as a decimal u64 (so 2.chunk and +2.chunk count as immutable file 2, following the implementation); symlinks and non-UTF-8 names are not generated".into(),
                 "a file with an immutable extension and a non-numeric stem makes the digester refuse the directory: tolerated (an error is not a wrong root), counted as observed_refusal_unparseable_immutable_name".into(),
                 "cache-independence is judged only when every cache entry that would be served equals the digest of the unchanged file (statement: 'over the same unchanged files'); stale entries (file modified after caching) and entries altered by a bit flip that still parse are outside the statement: not judged, counted as observed_*".into(),
                 "storage faults are applied to the cache file between computations, not in the middle of a write (a dead writer is modelled by the leftover .tmp)".into(),
@@ -166,13 +136,13 @@ impl Engine for DigestEngine {
                 let clause = out.violations[0].0.clone();
                 let min = minimise(&cfg, trace.clone(), &clause);
                 let min_out = execute(&cfg, &min);
-                report.violations = to_violations(&cfg, &min, &min_out)
+                report.violations = to_violations(&min_out)
                     .into_iter()
                     .filter(|v| v.clause == clause)
                     .collect();
                 if report.violations.is_empty() {
                     // cannot happen (ddmin keeps the clause); keep the unminimised evidence
-                    report.violations = to_violations(&cfg, &trace, &out);
+                    report.violations = to_violations(&out);
                     report.replay = Some(json!({"config": cfg, "trace": trace, "history": h}));
                 } else {
                     report.replay =
@@ -201,7 +171,7 @@ impl Engine for DigestEngine {
         for l in &out.labels {
             eprintln!("  step: {l}");
         }
-        report.violations = to_violations(&cfg, &trace, &out);
+        report.violations = to_violations(&out);
         report.digest = out.digest;
         report
     }
